@@ -4,16 +4,46 @@ import itertools
 from .refs.sem import PlainModel
 
 
-def assoc_table(sp):
+def resolve_class(fx, name, lf, rf, ltypes, rtypes):
+    """class of the association `name` with fields lf / rf whose declared end types fit the member types;
+    asks the factory (by content), so that no naming convention for colliding names is assumed"""
+    from . import langs
+    sp = fx.pristine
+    for a in sp['associations']:
+        if a['name'] == name and a['leftField'] == lf and a['rightField'] == rf and \
+                all(langs.is_sub(sp, t, a['leftAsset']) for t in ltypes) and all(langs.is_sub(sp, t, a['rightAsset']) for t in rtypes):
+            return fx.factory.get_association_by_signature(name, a['leftAsset'], a['rightAsset'], lf, rf)
+    raise LookupError(f'no association {name} [{lf}/{rf}] in the specification')
+
+
+def assoc_table(sp, factory=None):
+    """with a factory, the classes of duplicated names are asked for by content (fields and end types)"""
+    if factory is not None:
+        out = []
+        names = [a['name'] for a in sp['associations']]
+        for row, a in zip(assoc_table(sp), sp['associations']):
+            if names.count(a['name']) > 1:
+                try:
+                    row = dict(row, cls=factory.get_association_by_signature(
+                        a['name'], a['leftAsset'], a['rightAsset'], a['leftField'], a['rightField']))
+                except TypeError:      # (signature lookup without field names: keep the conventional name)
+                    pass
+            out.append(row)
+        return out
     names = [a['name'] for a in sp['associations']]
     out = []
+    taken = set(names)
     for a in sp['associations']:
         cls = a['name']
         if names.count(cls) > 1:
             cls = f"{a['name']}_{a['leftAsset']}_{a['rightAsset']}"
-            if any(o['cls'] == cls for o in out):
-                # same name and same asset types: the field names tell the classes apart
+            if cls in taken:
+                # name taken (same name and asset types, or joined names that coincide): the field names are appended
                 cls += f"_{a['leftField']}_{a['rightField']}"
+            base, k = cls, 2
+            while cls in taken:
+                cls, k = f'{base}_{k}', k + 1
+            taken.add(cls)
         out.append({'cls': cls, 'lf': a['leftField'], 'rf': a['rightField'],
                     'lt': a['leftAsset'], 'rt': a['rightAsset'],
                     'lmax': a['leftMultiplicity']['max'], 'rmax': a['rightMultiplicity']['max']})
@@ -80,7 +110,10 @@ def build(fx, pm, name='m', defenses=None, reverse_links=False):
         links = list(pm.links)
         if reverse_links:
             links.reverse()
+        types = dict(pm.assets)
         for cls, lf, L, rf, R in links:
+            if cls.startswith('?'):
+                cls = resolve_class(fx, cls[1:], lf, rf, [types[x] for x in L], [types[x] for x in R])
             m.add_association(getattr(fx.ns, cls)(**{lf: [objs[x] for x in L], rf: [objs[x] for x in R]}))
     except RecursionError:
         raise
